@@ -391,3 +391,116 @@ def step_obligations(tier):
         res['time'] = round(time.time() - t0, 3)
         results.append(res)
     return results
+
+
+# ---- the method factories: which tableau reaches which step function ------------------------------------------------------------------
+def wiring_obligations(tier=None):
+    """dirk_method / adaptive_dirk_method / rosenbrock_method / adaptive_rosenbrock_method executed from the current source with recording
+    shims for the step functions and the two drivers: the constant-step driver gets a stepper that calls the step function with the MAIN
+    tableau only (no embedded weights), the adaptive driver gets (a stepper with main + embedded weights, the documented error order, the
+    constant-step method of the same main tableau as fallback for tol=None); the module-level names are bound to the factories applied
+    to the coefficient function of the same name."""
+    t0 = time.time()
+    src = frontend.load(F_)
+    obs = []
+
+    def ob(oid, ok, desc, detail=''):
+        o = Obligation('solvers:' + oid, 'post', 0, [], None, desc, src='')
+        o.status, o.backend, o.time = ('proved' if ok else 'refuted'), 'symbolic-execution (recorded calls)', 0.0
+        if not ok:
+            o.goal = detail
+        obs.append(o)
+
+    class Tab:            # an opaque tableau object; slicing off the embedded row is recorded
+        def __init__(self, name):
+            self.name = name
+
+        def __getitem__(self, ix):
+            return Tab('%s[%s]' % (self.name, ', '.join(_slice_repr(i) for i in (ix if isinstance(ix, tuple) else (ix,)))))
+
+    def _slice_repr(i):
+        if isinstance(i, slice):
+            return '%s:%s' % ('' if i.start is None else i.start, '' if i.stop is None else i.stop)
+        return str(i)
+
+    calls = []
+    ns = {}
+    ns['dirk_step'] = lambda *a, **k: calls.append(('dirk_step', a, k)) or 'dirk-step-result'
+    ns['rosenbrock_step'] = lambda *a, **k: calls.append(('rosenbrock_step', a, k)) or 'ros-step-result'
+
+    class Method:
+        def __init__(self, kind, stepper, err_order=None, const_method=None):
+            self.kind, self.stepper, self.err_order, self.const_method = kind, stepper, err_order, const_method
+            self.__doc__ = ''
+    ns['_constant_step_method'] = lambda stepper: Method('const', stepper)
+    ns['_adaptive_step_method'] = lambda stepper, err_order, const_method: Method('adaptive', stepper, err_order, const_method)
+    names = ('dirk_method', 'adaptive_dirk_method', 'rosenbrock_method', 'adaptive_rosenbrock_method')
+    try:
+        mod = ast.Module(body=[src.find(n) for n in names], type_ignores=[])
+        exec(compile(mod, src.path, 'exec'), ns)
+    except Exception as e:
+        ob('method-factories:load', False, 'the four method factories exist', '%s: %s' % (type(e).__name__, e))
+        return [_wiring_result(src, obs, t0)]
+
+    def step_call(m, *args):
+        del calls[:]
+        r = m.stepper(*args, extra=1)
+        return (calls[0] if len(calls) == 1 else None), r
+
+    A, G, b, bh = Tab('A'), Tab('Gamma'), Tab('b'), Tab('b_hat')
+    # dirk_method
+    m = ns['dirk_method'](A, 'nm', 'Display')
+    c, r = step_call(m, 'M', 'F')
+    ob('dirk_method:stepper', m.kind == 'const' and c is not None and c[0] == 'dirk_step' and c[1] == (A, 'M', 'F') and c[2] == {'extra': 1} and r == 'dirk-step-result'
+       and m.__name__ == 'nm', 'constant-step DIRK method: stepper(*a, **k) = dirk_step(A, *a, **k)', repr(c))
+    # adaptive_dirk_method
+    m = ns['adaptive_dirk_method'](A, 3, 'nm', 'Display')
+    c, r = step_call(m, 'M', 'F')
+    ob('adaptive_dirk_method:stepper', m.kind == 'adaptive' and m.err_order == 3 and c is not None and c[0] == 'dirk_step' and c[1] == (A, 'M', 'F') and r == 'dirk-step-result',
+       'adaptive DIRK method: stepper = dirk_step with the full tableau (embedded row included), error order forwarded', repr(c))
+    cm = m.const_method
+    ok = isinstance(cm, Method) and cm.kind == 'const'
+    if ok:
+        c, r = step_call(cm, 'M', 'F')
+        ok = c is not None and c[0] == 'dirk_step' and isinstance(c[1][0], Tab) and c[1][0].name == 'A[:-1, :]' and c[1][1:] == ('M', 'F')
+    ob('adaptive_dirk_method:fallback', ok, 'tol=None fallback: the constant-step method of the tableau without its embedded row (A[:-1, :])', repr(c))
+    # rosenbrock_method
+    m = ns['rosenbrock_method'](A, G, b, 'nm', 'Display')
+    c, r = step_call(m, 'M', 'F')
+    ob('rosenbrock_method:stepper', m.kind == 'const' and c is not None and c[0] == 'rosenbrock_step' and c[1] == (A, G, b, None, 'M', 'F') and c[2] == {'extra': 1}
+       and r == 'ros-step-result', 'constant-step Rosenbrock method: stepper = rosenbrock_step(A, Gamma, b, None, ...)', repr(c))
+    # adaptive_rosenbrock_method
+    m = ns['adaptive_rosenbrock_method'](A, G, b, bh, 2, 'nm', 'Display')
+    c, r = step_call(m, 'M', 'F')
+    ob('adaptive_rosenbrock_method:stepper', m.kind == 'adaptive' and m.err_order == 2 and c is not None and c[0] == 'rosenbrock_step' and c[1] == (A, G, b, bh, 'M', 'F')
+       and r == 'ros-step-result', 'adaptive Rosenbrock method: stepper = rosenbrock_step(A, Gamma, b, b_hat, ...), error order forwarded', repr(c))
+    cm = m.const_method
+    ok = isinstance(cm, Method) and cm.kind == 'const'
+    if ok:
+        c, r = step_call(cm, 'M', 'F')
+        ok = c is not None and c[0] == 'rosenbrock_step' and c[1] == (A, G, b, None, 'M', 'F')
+    ob('adaptive_rosenbrock_method:fallback', ok, 'tol=None fallback: the constant-step method with the MAIN weights b (not the embedded weights)', repr(c))
+    # module-level bindings: NAME = factory(*coeffs_NAME(), 'NAME', ...) / factory(coeffs_NAME(), 'NAME', ...)
+    tree = src.tree if hasattr(src, 'tree') else ast.parse(open(src.path).read())
+    bound = 0
+    for st in tree.body:
+        if isinstance(st, ast.Assign) and len(st.targets) == 1 and isinstance(st.targets[0], ast.Name) and isinstance(st.value, ast.Call) \
+                and isinstance(st.value.func, ast.Name) and st.value.func.id in names:
+            nm = st.targets[0].id
+            a0 = st.value.args[0]
+            inner = a0.value if isinstance(a0, ast.Starred) else a0
+            if isinstance(inner, ast.Call) and isinstance(inner.func, ast.Name) and inner.func.id.startswith('coeffs_'):
+                bound += 1
+                strs = [a.value for a in st.value.args if isinstance(a, ast.Constant) and isinstance(a.value, str)]
+                adaptive = st.value.func.id.startswith('adaptive_')
+                ok = inner.func.id == 'coeffs_' + nm and strs[:1] == [nm] and adaptive == isinstance(a0, ast.Starred)
+                ob('binding:%s' % nm, ok, 'the public name is bound to its own coefficient function and carries its own name',
+                   '%s = %s' % (nm, ast.unparse(st.value)[:160]))
+    ob('binding:count', bound >= 10, 'the module binds its integrators through the factories', '%d bindings found' % bound)
+    return [_wiring_result(src, obs, t0)]
+
+
+def _wiring_result(src, obs, t0):
+    return {'contract': 'solvers:method-factories', 'file': F_, 'func': 'dirk_method / adaptive_dirk_method / rosenbrock_method / adaptive_rosenbrock_method',
+            'instance': None, 'obligations': [ob_dict(o) for o in obs], 'status': 'ok', 'error': None, 'paths': 4, 'vacuous': False, 'notes': [],
+            'src_sha': src.sha, 'time': round(time.time() - t0, 3)}
